@@ -402,13 +402,27 @@ impl MigScenario {
         let mut r = ch.fork_rng("state.bytes");
         let mut id = 0u32;
         let mut prep_ids = vec![];
+        // preparation layers: a later preparation may consume the output of an earlier one (layer + 1), so that
+        // transfers can sit two or three dependency levels below a root
+        let layered = n_prep >= 2 && ch.chance("prep.layered", 1, 2);
+        let mut prep_layer: Vec<u8> = vec![];
         for (i, h) in prep_h.iter().enumerate() {
             let txid = TxId::from_bytes(r.bytes32());
+            let (layer, pdeps) = if layered && i > 0 && ch.chance("prep.child", 2, 3) {
+                let parent = ch.idx("prep.parent", i);
+                (prep_layer[parent] + 1, vec![prep_ids[parent]])
+            } else {
+                (0u8, vec![])
+            };
+            if layer >= 1 {
+                ctx.probe("preparation_layers_ge_2");
+            }
+            prep_layer.push(layer);
             txs.push(MigrationTransaction::from_parts(
                 MigrationTransferId::new(id),
-                MigrationTxKind::Preparation { layer: 0, index: i },
+                MigrationTxKind::Preparation { layer: layer as _, index: i },
                 r.bytes32().to_vec(),
-                vec![],
+                pdeps,
                 *h,
                 scheduling::expiry_height(*h),
                 None,
@@ -423,7 +437,7 @@ impl MigScenario {
             id += 1;
         }
         for (i, s) in sched.iter().enumerate() {
-            let deps = if prep_ids.is_empty() { vec![] } else { vec![prep_ids[i % prep_ids.len()]] };
+            let deps = if prep_ids.is_empty() { vec![] } else { vec![prep_ids[if layered { prep_ids.len() - 1 - (i % prep_ids.len()) } else { i % prep_ids.len() }]] };
             // an anchor that could not be drawn at commit is drawn later by the engine; the simulation needs one
             let anchor = anchors[i].or_else(|| {
                 let mr = commit_height - commit_height % interval;
